@@ -37,7 +37,8 @@ package consensus
 //@   trusted
 //@   modifies s._hash, s._publicKey
 //@   ensures sb_haskey(owner(s)) ==> a != nil
-//@   ensures a != nil ==> addrID(a) == sb_signer(owner(s)) && addr_id(toiface(a)) == sb_signer(owner(s))
+//@   ensures a != nil ==> addrID(a) == sb_signer(owner(s)) && addr_id(toiface(a)) == sb_signer(owner(s)) && !addr_contract(toiface(a))
+//@   ensures !sb_haskey(owner(s)) ==> a == nil
 
 //@ spec dsvOK(v) = v != nil ==> (v.msg != nil && sb_haskey(ref(v.msg)))
 //@ spec dsvOther(o) = as(ptr_dsVote, o)
@@ -438,3 +439,74 @@ package consensus
 //@   callpre WriteMessageBytes: w == cs.roundWAL && sp == 0
 //@   callpre Broadcast: pi == 0 ==> ghost(wal_synced) && recIs(0, b)
 //@   loop 0: invariant cs != nil
+
+// Recovery never moves the (round, step) position backwards: the lock WAL may only advance it.
+// (calls with unknown effects - message verification, vote bookkeeping - are assumed not to write
+// cs.round / cs.step / cs.height)
+//@ spec lexGE(r, s, r0, s0) = r > r0 || (r == r0 && s >= s0)
+//@ func (cs *consensus) applyLockWAL() (err)
+//@   arith int
+//@   nosafety
+//@   modifies *
+//@   opt protect cs.round, cs.step, cs.height
+//@   opt protect-local vmsg.Round, vmsg.Type
+//@   opt inline-none
+//@   opt no-callee-pre
+//@   requires cs != nil
+//@   ensures [monotone] lexGE(cs.round, cs.step, old(cs.round), old(cs.step))
+//@   loop 0: invariant cs != nil && cs == old(cs) && lexGE(cs.round, cs.step, old(cs.round), old(cs.step))
+//@   loop 1: invariant cs != nil && cs == old(cs) && lexGE(cs.round, cs.step, old(cs.round), old(cs.step))
+
+// Restart: the round WAL is read as a sequence of records (rd_n counts the records delivered by
+// the reader; rk_* are the fields of record k as decoded). After a successful replay the restored
+// (round, step) is at or beyond every own proposal and every own vote of the current height found
+// in the log, so the step order (beginStep) keeps the node from signing for that position again.
+//@ smt all (declare-ghost rd_n Int)
+//@ smt all (declare-fun rk_kind (Int) Int)
+//@ smt all (declare-fun rk_height (Int) Int)
+//@ smt all (declare-fun rk_round (Int) Int)
+//@ smt all (declare-fun rk_type (Int) Int)
+//@ smt all (declare-fun rk_haskey (Int) Bool)
+//@ smt all (declare-fun rk_signer (Int) BSeq)
+//@ func (r WALReader) ReadBytes() (bs, err)
+//@   iface
+//@   trusted
+//@   pure
+//@   opt ghost:rd_n ((err == nil) ? ghost(rd_n) + 1 : ghost(rd_n))
+// errors.Is(nil, x) is false for a non-nil target
+//@ func IsEOF(err) (r)
+//@   trusted
+//@   pure
+//@   ensures r ==> err != nil
+//@ func IsCorruptedWAL(err) (r)
+//@   trusted
+//@   pure
+//@   ensures r ==> err != nil
+//@ func IsUnexpectedEOF(err) (r)
+//@   trusted
+//@   pure
+//@   ensures r ==> err != nil
+//@ spec curRec() = ghost(rd_n) - 1
+//@ func UnmarshalMessage(sp, bs) (msg, err)
+//@   trusted
+//@   pure
+//@   ensures err == nil ==> msg != nil
+//@   ensures err == nil ==> (rk_kind(curRec()) == 1) == (typeof(msg) == typeid(ptr_ProposalMessage)) && (rk_kind(curRec()) == 2) == (typeof(msg) == typeid(ptr_VoteMessage))
+//@   ensures err == nil && typeof(msg) == typeid(ptr_VoteMessage) ==> as(ptr_VoteMessage, msg) != nil && fresh(as(ptr_VoteMessage, msg)) && as(ptr_VoteMessage, msg).Height == rk_height(curRec()) && as(ptr_VoteMessage, msg).Round == rk_round(curRec()) && as(ptr_VoteMessage, msg).Type == rk_type(curRec()) && sb_haskey(ref(as(ptr_VoteMessage, msg))) == rk_haskey(curRec()) && sb_signer(ref(as(ptr_VoteMessage, msg))) == rk_signer(curRec())
+//@   ensures err == nil && typeof(msg) == typeid(ptr_ProposalMessage) ==> as(ptr_ProposalMessage, msg) != nil && fresh(as(ptr_ProposalMessage, msg)) && as(ptr_ProposalMessage, msg).Height == rk_height(curRec()) && as(ptr_ProposalMessage, msg).Round == rk_round(curRec()) && sb_haskey(ref(as(ptr_ProposalMessage, msg))) == rk_haskey(curRec()) && sb_signer(ref(as(ptr_ProposalMessage, msg))) == rk_signer(curRec())
+
+//@ spec myID(cs) = wallet_id(chain_wallet(cs.c))
+//@ spec ownRec(cs, k) = rk_height(k) == cs.height && rk_haskey(k) && rk_signer(k) == myID(cs) && (rk_kind(k) == 1 || (rk_kind(k) == 2 && vl_idx(cs.validators, rk_signer(k)) >= 0))
+//@ spec recStep(k) = ((rk_kind(k) == 1) ? stepPropose : ((rk_type(k) == VoteTypePrevote) ? stepPrevote : stepPrecommit))
+//@ func (cs *consensus) applyRoundWAL() (err)
+//@   arith int
+//@   nosafety
+//@   modifies *
+//@   opt protect cs.height, cs.validators, cs.c, cs.round, cs.step
+//@   opt protect-local m.Height, m.Round, m.Type, vmsg.Round, vmsg.Type
+//@   opt no-callee-pre
+//@   noinline Verify, add, votesFor, hasOverTwoThirds, OpenForRead, CloseAndRepair, Close, Get, Len
+//@   requires cs != nil && ghost(rd_n) == 0
+//@   ensures [restored] err == nil ==> (forall k int :: {rk_kind(k)} 0 <= k && k < ghost(rd_n) && ownRec(cs, k) ==> lexGE(cs.round, cs.step, rk_round(k), recStep(k)))
+//@   loop 0: invariant cs != nil && cs == old(cs) && ghost(rd_n) >= 0 && (forall k int :: {rk_kind(k)} 0 <= k && k < ghost(rd_n) && ownRec(cs, k) ==> lexGE(round, rstep, rk_round(k), recStep(k)))
+//@   loop 1: invariant cs != nil && cs == old(cs) && ghost(rd_n) >= 1
